@@ -16,6 +16,7 @@ UDP and DNS flows (`onaccept_udp`, `ondns`, server `UdpProxy`/`DnsProxy`) are ou
 their fault handling is decided on the real code by `harness/props/c08.py` (and C10/C11).
 -/
 import SshuttleModel.Lemmas.SockInv
+import SshuttleModel.Lemmas.MuxMove
 import SshuttleModel.Props.C01
 
 namespace Sshuttle.Tunnel
@@ -415,12 +416,14 @@ def DeathCause (w : World) : Step → Prop
   | .deliver .server conn =>
     ∃ fr rest, w.cm.out = fr :: rest ∧
       ((fr.cmd = CONNECT ∧ (w.sOcc fr.chan = true ∨ ¬ HandledConn conn)) ∨   -- CONNECT for a live id / unknown errno
-       (∃ f ∈ w.flows, ∃ p, f.s = some p ∧ f.chan = fr.chan ∧ p.mw.registered = true ∧
+       (fr.cmd ≠ PING ∧ fr.cmd ≠ PONG ∧ fr.cmd ≠ CONNECT ∧ isControl fr.cmd = false ∧
+        ∃ f ∈ w.flows, ∃ p, f.s = some p ∧ f.chan = fr.chan ∧ p.mw.registered = true ∧
           fr.cmd ≠ EOF ∧ fr.cmd ≠ STOP ∧ fr.cmd ≠ DATA))                    -- non-stream frame on a TCP channel
   | .deliver .client _ =>
     ∃ fr rest, w.sm.out = fr :: rest ∧
       ((fr.cmd = CONNECT ∧ w.cOcc fr.chan = true) ∨
-       (∃ f ∈ w.flows, ∃ p, f.c = some p ∧ f.chan = fr.chan ∧ p.mw.registered = true ∧
+       (fr.cmd ≠ PING ∧ fr.cmd ≠ PONG ∧ fr.cmd ≠ CONNECT ∧ isControl fr.cmd = false ∧
+        ∃ f ∈ w.flows, ∃ p, f.c = some p ∧ f.chan = fr.chan ∧ p.mw.registered = true ∧
           fr.cmd ≠ EOF ∧ fr.cmd ≠ STOP ∧ fr.cmd ≠ DATA))
   | _ => False
 
@@ -492,21 +495,25 @@ theorem C08_death_causes (w : World) (st : Step) (h0 : w.died = none) (hd : (w.s
         rw [ho] at hraw
         simp only at hraw
         refine ⟨fr, rest, rfl, ?_⟩
-        split at hraw
-        · exact absurd h0 hraw
-        · split at hraw
-          · exact absurd h0 hraw
-          · split at hraw
-            next hcn =>
+        by_cases c1 : (fr.cmd == Generated.CMD_PING) = true
+        · rw [if_pos c1] at hraw; exact absurd h0 hraw
+        · rw [if_neg c1] at hraw
+          by_cases c2 : (fr.cmd == Generated.CMD_PONG) = true
+          · rw [if_pos c2] at hraw; exact absurd h0 hraw
+          · rw [if_neg c2] at hraw
+            by_cases c3 : (fr.cmd == Generated.CMD_TCP_CONNECT) = true
+            · rw [if_pos c3] at hraw
               split at hraw
-              next hocc => left; exact ⟨by simpa using hcn, hocc⟩
+              next hocc => left; exact ⟨by simpa using c3, hocc⟩
               · exact absurd h0 hraw
-            · split at hraw
-              · exact absurd h0 hraw
-              · right
+            · rw [if_neg c3] at hraw
+              by_cases c4 : isControl fr.cmd = true
+              · rw [if_pos c4] at hraw; exact absurd h0 hraw
+              · rw [if_neg c4] at hraw
+                right
                 have := dispatchAt_died { w with sm := { w.sm with out := rest } } .client fr h0 hraw
                 obtain ⟨f, hf, p, hp, r⟩ := dispatch_died .client w.flows fr this
-                exact ⟨f, hf, p, hp, r⟩
+                exact ⟨by simpa using c1, by simpa using c2, by simpa using c3, by simpa using c4, f, hf, p, hp, r⟩
     · simp only [DeathCause]
       simp only [World.deliverS] at hraw
       cases ho : w.cm.out with
@@ -515,14 +522,16 @@ theorem C08_death_causes (w : World) (st : Step) (h0 : w.died = none) (hd : (w.s
         rw [ho] at hraw
         simp only at hraw
         refine ⟨fr, rest, rfl, ?_⟩
-        split at hraw
-        · exact absurd h0 hraw
-        · split at hraw
-          · exact absurd h0 hraw
-          · split at hraw
-            next hcn =>
+        by_cases c1 : (fr.cmd == Generated.CMD_PING) = true
+        · rw [if_pos c1] at hraw; exact absurd h0 hraw
+        · rw [if_neg c1] at hraw
+          by_cases c2 : (fr.cmd == Generated.CMD_PONG) = true
+          · rw [if_pos c2] at hraw; exact absurd h0 hraw
+          · rw [if_neg c2] at hraw
+            by_cases c3 : (fr.cmd == Generated.CMD_TCP_CONNECT) = true
+            · rw [if_pos c3] at hraw
               left
-              refine ⟨by simpa using hcn, ?_⟩
+              refine ⟨by simpa using c3, ?_⟩
               unfold World.connectS at hraw
               by_cases hocc : w.sOcc fr.chan = true
               · exact Or.inl hocc
@@ -538,12 +547,14 @@ theorem C08_death_causes (w : World) (st : Step) (h0 : w.died = none) (hd : (w.s
                     cases htc : SockW.tryConnect { connecting := true } f.dst conn false with
                     | ok s e => rw [htc] at hraw; exact absurd h0 hraw
                     | died => exact ((tryConnect_died_iff _ _ _ _).mp htc).2.2
-            · split at hraw
-              · exact absurd h0 hraw
-              · right
+            · rw [if_neg c3] at hraw
+              by_cases c4 : isControl fr.cmd = true
+              · rw [if_pos c4] at hraw; exact absurd h0 hraw
+              · rw [if_neg c4] at hraw
+                right
                 have := dispatchAt_died { w with cm := { w.cm with out := rest } } .server fr h0 hraw
                 obtain ⟨f, hf, p, hp, r⟩ := dispatch_died .server w.flows fr this
-                exact ⟨f, hf, p, hp, r⟩
+                exact ⟨by simpa using c1, by simpa using c2, by simpa using c3, by simpa using c4, f, hf, p, hp, r⟩
   | removeDead e => cases e <;> exact absurd h0 hraw
   | checkFull e => cases e <;> exact absurd h0 hraw
   | foreign e fr => cases e <;> exact absurd h0 hraw
@@ -551,6 +562,217 @@ theorem C08_death_causes (w : World) (st : Step) (h0 : w.died = none) (hd : (w.s
   | appEof i => exact absurd h0 hraw
   | dstWrite i b => exact absurd h0 hraw
   | dstEof i => exact absurd h0 hraw
+
+
+/-! ## 6. the processes keep running -/
+
+/-- A frame that no TCP wrapper of this run will ever be handed: PING / PONG / a control message,
+or a frame of another flow kind whose channel is none of the run's TCP flow ids. -/
+def Benign (fin : List Nat) (fr : Frame) : Prop :=
+  fr.cmd = PING ∨ fr.cmd = PONG ∨ isControl fr.cmd = true ∨ (isStreamCmd fr.cmd = false ∧ fr.chan ∉ fin)
+
+/-- Every queued frame is a stream frame (CONNECT only towards the server) or benign. -/
+def QInv (fin : List Nat) (w : World) : Prop :=
+  (∀ fr ∈ w.cm.out, isStreamCmd fr.cmd = true ∨ Benign fin fr) ∧
+  (∀ fr ∈ w.sm.out, (isStreamCmd fr.cmd = true ∧ fr.cmd ≠ CONNECT) ∨ Benign fin fr)
+
+/-- The environment's side of the bargain: connect errnos come from the handled set, and frames
+of other flow kinds (DNS, UDP, control) are not addressed to a TCP flow's channel. -/
+def SafeStep (fin : List Nat) : Step → Prop
+  | .cb _ _ io => HandledConn io.conn
+  | .deliver .server conn => HandledConn conn
+  | .foreign _ fr => isStreamCmd fr.cmd = false ∧ Benign fin fr
+  | _ => True
+
+theorem SafeStep.good {fin : List Nat} {st : Step} (h : SafeStep fin st) : GoodStep st := by
+  cases st <;> simp only [GoodStep]
+  exact h.1
+
+theorem streamKind_cmd {cmd : Nat} (h : streamKind cmd) : isStreamCmd cmd = true ∧ cmd ≠ CONNECT := by
+  obtain ⟨d1, d2, d3, d4, d5, d6⟩ := cmds_distinct
+  rcases h with h | h | h <;> subst h
+  · exact ⟨by simp [isStreamCmd], d3⟩
+  · exact ⟨by simp [isStreamCmd], d5⟩
+  · exact ⟨by simp [isStreamCmd], d6⟩
+
+theorem ping_facts : isStreamCmd PING = false ∧ isStreamCmd PONG = false ∧ PING ≠ CONNECT ∧ PONG ≠ CONNECT ∧
+    isControl CONNECT = false := by decide
+
+theorem QInv.stepRaw {fin : List Nat} {w : World} (h : QInv fin w) (st : Step) (hs : SafeStep fin st) :
+    QInv fin (w.stepRaw st) := by
+  constructor
+  · rcases stepRaw_cmOut w st with ⟨extra, he, ha⟩ | ⟨fr, ho⟩
+    · rw [he]
+      intro fr hfr
+      rcases List.mem_append.mp hfr with hm | hm
+      · exact h.1 fr hm
+      · rcases ha fr hm with k | k | k | k | ⟨fr', hst, hc1, hc2⟩
+        · exact Or.inl (streamKind_cmd k).1
+        · left; rw [k]; decide
+        · exact Or.inr (Or.inl k)
+        · exact Or.inr (Or.inr (Or.inl k))
+        · subst hst
+          right
+          obtain ⟨_, hb⟩ := hs
+          rcases hb with b | b | b | ⟨b1, b2⟩
+          · exact Or.inl (by rw [hc2]; exact b)
+          · exact Or.inr (Or.inl (by rw [hc2]; exact b))
+          · exact Or.inr (Or.inr (Or.inl (by rw [hc2]; exact b)))
+          · exact Or.inr (Or.inr (Or.inr ⟨by rw [hc2]; exact b1, by rw [hc1]; exact b2⟩))
+    · intro x hx
+      exact h.1 x (by rw [ho]; exact List.mem_cons_of_mem _ hx)
+  · rcases stepRaw_smOut w st with ⟨extra, he, ha⟩ | ⟨fr, ho⟩
+    · rw [he]
+      intro fr hfr
+      rcases List.mem_append.mp hfr with hm | hm
+      · exact h.2 fr hm
+      · rcases ha fr hm with k | k | k | ⟨fr', hst, hc1, hc2⟩
+        · exact Or.inl (streamKind_cmd k)
+        · exact Or.inr (Or.inl k)
+        · exact Or.inr (Or.inr (Or.inl k))
+        · subst hst
+          right
+          obtain ⟨_, hb⟩ := hs
+          rcases hb with b | b | b | ⟨b1, b2⟩
+          · exact Or.inl (by rw [hc2]; exact b)
+          · exact Or.inr (Or.inl (by rw [hc2]; exact b))
+          · exact Or.inr (Or.inr (Or.inl (by rw [hc2]; exact b)))
+          · exact Or.inr (Or.inr (Or.inr ⟨by rw [hc2]; exact b1, by rw [hc1]; exact b2⟩))
+    · intro x hx
+      exact h.2 x (by rw [ho]; exact List.mem_cons_of_mem _ hx)
+
+theorem QInv.step {fin : List Nat} {w : World} (h : QInv fin w) (st : Step) (hs : SafeStep fin st) :
+    QInv fin (w.step st) := by
+  unfold World.step
+  split
+  · exact h
+  · split
+    · exact h
+    · exact h.stepRaw st hs
+
+/-- One step of an alive world that satisfies the invariants cannot end a process. -/
+theorem step_alive {fin : List Nat} {w : World} (hw : WInv w) (hq : QInv fin w) (hd : w.died = none)
+    (hsub : ∀ c ∈ chans w, c ∈ fin) (st : Step) (hs : SafeStep fin st) : (w.step st).died = none := by
+  cases hdd : (w.step st).died with
+  | none => rfl
+  | some msg =>
+    exfalso
+    have hc := C08_death_causes w st hd (by rw [hdd]; exact fun h => by cases h)
+    obtain ⟨d1, d2, d3, d4, d5, d6⟩ := cmds_distinct
+    -- a frame of the queue that reaches a registered TCP wrapper of this world is a stream frame
+    have notBenign : ∀ (fr : Frame) (f : Flow), f ∈ w.flows → f.chan = fr.chan → fr.cmd ≠ PING → fr.cmd ≠ PONG →
+        isControl fr.cmd = false → ¬ Benign fin fr := by
+      intro fr f hf hch n1 n2 n3 hb
+      rcases hb with b | b | b | ⟨_, b⟩
+      · exact n1 b
+      · exact n2 b
+      · rw [n3] at b; cases b
+      · exact b (hsub _ (by rw [← hch]; exact List.mem_map_of_mem hf))
+    have notStream : ∀ cmd : Nat, cmd ≠ EOF → cmd ≠ STOP → cmd ≠ DATA → cmd ≠ CONNECT → isStreamCmd cmd = false := by
+      intro cmd a b c d
+      simp [isStreamCmd, a, b, c, d]
+    cases st with
+    | cb e i io => exact hc hs
+    | deliver e conn =>
+      cases e
+      · -- the client handles the head of the server → client queue
+        obtain ⟨fr, rest, ho, hcase⟩ := hc
+        have hfr := hq.2 fr (by rw [ho]; exact List.mem_cons_self)
+        rcases hcase with ⟨hcn, _⟩ | ⟨n1, n2, n3, n4, f, hf, p, hp, hch, _, k1, k2, k3⟩
+        · rcases hfr with ⟨_, k⟩ | b
+          · exact k hcn
+          · rcases b with b | b | b | ⟨b, _⟩
+            · rw [hcn] at b; exact ping_facts.2.2.1 b.symm
+            · rw [hcn] at b; exact ping_facts.2.2.2.1 b.symm
+            · rw [hcn, ping_facts.2.2.2.2] at b; cases b
+            · rw [hcn] at b; revert b; decide
+        · rcases hfr with ⟨k, _⟩ | b
+          · rw [notStream fr.cmd k1 k2 k3 n3] at k; cases k
+          · exact notBenign fr f hf hch n1 n2 n4 b
+      · obtain ⟨fr, rest, ho, hcase⟩ := hc
+        have hfr := hq.1 fr (by rw [ho]; exact List.mem_cons_self)
+        rcases hcase with ⟨hcn, hocc | hh⟩ | ⟨n1, n2, n3, n4, f, hf, p, hp, hch, _, k1, k2, k3⟩
+        · -- CONNECT for an id on which a server wrapper is registered: impossible
+          unfold World.sOcc at hocc
+          obtain ⟨f, hf, hfc⟩ := List.any_eq_true.mp hocc
+          simp only [Bool.and_eq_true, beq_iff_eq] at hfc
+          obtain ⟨hch, hreg⟩ := hfc
+          cases hsf : f.s with
+          | none => rw [hsf] at hreg; cases hreg
+          | some p =>
+            obtain ⟨i, hi⟩ := List.getElem?_of_mem hf
+            have hfo := hw.flows i f hi
+            have hk := hfo.up.connOk
+            rw [upSrc_out, ho, nConnect_cons] at hk
+            have hic : isConnect f.chan fr = true := by simp [isConnect, hch, hcn]
+            rw [hic] at hk
+            rcases hk with hk | ⟨_, hk⟩
+            · simp at hk
+            · simp [upSink, hsf, KV] at hk
+        · exact hh hs
+        · rcases hfr with k | b
+          · rw [notStream fr.cmd k1 k2 k3 n3] at k; cases k
+          · exact notBenign fr f hf hch n1 n2 n4 b
+    | accept => exact hc
+    | pre e i => exact hc
+    | removeDead e => exact hc
+    | checkFull e => exact hc
+    | foreign e fr => exact hc
+    | appWrite i b => exact hc
+    | appEof i => exact hc
+    | dstWrite i b => exact hc
+    | dstEof i => exact hc
+
+/-- A world right after start-up: no flows, both processes alive, only PING / PONG / control
+frames (the initial PINGs, the server's ROUTES message) queued. -/
+def Boot (w : World) : Prop :=
+  w.flows = [] ∧ w.died = none ∧
+  (∀ fr ∈ w.cm.out, fr.cmd = PING ∨ fr.cmd = PONG ∨ isControl fr.cmd = true) ∧
+  (∀ fr ∈ w.sm.out, fr.cmd = PING ∨ fr.cmd = PONG ∨ isControl fr.cmd = true)
+
+theorem ctl_not_stream {cmd : Nat} (h : cmd = PING ∨ cmd = PONG ∨ isControl cmd = true) :
+    isStreamCmd cmd = false := by
+  rcases h with h | h | h
+  · rw [h]; decide
+  · rw [h]; decide
+  · simp only [isControl, Bool.or_eq_true, beq_iff_eq] at h
+    rcases h with ((((h | h) | h) | h) | h) | h <;> (rw [h]; decide)
+
+theorem Boot.fresh {w : World} (h : Boot w) : Fresh w :=
+  ⟨h.1, fun fr hfr => ctl_not_stream (h.2.2.1 fr hfr), fun fr hfr => ctl_not_stream (h.2.2.2 fr hfr)⟩
+
+theorem Boot.qinv {w : World} (h : Boot w) (fin : List Nat) : QInv fin w :=
+  ⟨fun fr hfr => Or.inr ((h.2.2.1 fr hfr).elim Or.inl (fun k => k.elim (fun k => Or.inr (Or.inl k)) (fun k => Or.inr (Or.inr (Or.inl k))))),
+   fun fr hfr => Or.inr ((h.2.2.2 fr hfr).elim Or.inl (fun k => k.elim (fun k => Or.inr (Or.inl k)) (fun k => Or.inr (Or.inr (Or.inl k)))))⟩
+
+theorem no_death_run (fin : List Nat) (hn : fin.Nodup) (w : World) (hr : RunInv w) (hq : QInv fin w)
+    (hd : w.died = none) (steps : List Step) (hs : ∀ st ∈ steps, SafeStep fin st)
+    (hfin : chans (w.run steps) = fin) : (w.run steps).died = none := by
+  induction steps generalizing w with
+  | nil => exact hd
+  | cons st rest ih =>
+    simp only [World.run, List.foldl_cons] at hfin ⊢
+    have hst := hs st (by simp)
+    have hpre1 : chans (w.step st) <+: fin := by rw [← hfin]; exact chans_run_prefix (w.step st) rest
+    have hpre0 : chans w <+: fin := (chans_step_prefix w st).trans hpre1
+    have hd1 := step_alive (hr.2.2 hd) hq hd (fun c hc => hpre0.subset hc) st hst
+    have hr1 := hr.step st hst.good (nodup_of_prefix hpre1 hn)
+    exact ih (w.step st) hr1 (hq.step st hst) hd1 (fun s hs' => hs s (by simp [hs'])) hfin
+
+/-- **C08, process liveness.**  From start-up, for EVERY schedule — any interleaving of accepts,
+callbacks with any socket fault at any moment on any flow (reset, EPIPE, failing shutdown,
+refused / unreachable / timed-out connects), frame deliveries however delayed, frames arriving
+for flows already closed, identifier exhaustion, removal of handlers, latency-control rounds,
+any number of concurrent flows — neither the client nor the server process ends.
+
+Hypotheses (the environment's part): connect errnos come from the handled set (`SafeStep`; any
+other errno is re-raised by design), frames of other flow kinds are not addressed to a TCP
+flow's id, and the TCP flow ids of the run are pairwise distinct (re-use after a full cursor
+cycle is known finding F19). -/
+theorem C08_no_death (w0 : World) (hb : Boot w0) (steps : List Step)
+    (hs : ∀ st ∈ steps, SafeStep (chans (w0.run steps)) st) (hn : (chans (w0.run steps)).Nodup) :
+    (w0.run steps).died = none :=
+  no_death_run _ hn w0 hb.fresh.runInv (hb.qinv _) hb.2.1 steps hs rfl
 
 /-! ## 5. non-vacuity -/
 
@@ -571,5 +793,32 @@ example :
   rw [C08_callback_dies_iff]
   refine ⟨rfl, rfl, ?_⟩
   unfold HandledConn effErrno; decide
+
+
+def demo8 : List Step :=
+  [.accept, .accept, .appWrite 1 [5, 6], .cb .client 1 { recv := .data 65536 },
+   .deliver .server (.errno 111 0),                 -- flow 0: connection refused at the server
+   .deliver .server .ok, .deliver .server .ok,      -- flow 1: connected, its data arrives
+   .cb .server 0 {}, .cb .server 1 { send := .sent 65536 },
+   .cb .client 0 { recv := .err },                  -- flow 0: reset on the application side too
+   .foreign .server ⟨9, Generated.CMD_DNS_RESPONSE, [1]⟩]
+
+/-- The hypotheses of `C08_no_death` are met by a schedule with a refused connect, a reset and a
+frame of another flow kind; the faulty flow's destination socket ends shut, its neighbour's bytes
+arrive. -/
+example :
+    Boot ({} : World) ∧ (∀ st ∈ demo8, SafeStep (chans (({} : World).run demo8)) st) ∧
+    (chans (({} : World).run demo8)).Nodup ∧
+    ((({} : World).run demo8).flows.map fun f => (f.dst.sawShut, f.dst.delivered)) = [(true, []), (false, [5, 6])] := by
+  refine ⟨⟨rfl, rfl, by simp, by simp⟩, ?_, by decide +kernel, by decide +kernel⟩
+  have hfin : chans (({} : World).run demo8) = [1, 2] := by decide +kernel
+  rw [hfin]
+  intro st hst
+  simp only [demo8, List.mem_cons, List.not_mem_nil, or_false] at hst
+  rcases hst with h | h | h | h | h | h | h | h | h | h | h <;> subst h
+  all_goals first
+    | trivial
+    | (simp only [SafeStep, HandledConn, effErrno]; decide)
+    | (exact ⟨by decide, Or.inr (Or.inr (Or.inr ⟨by decide, by decide⟩))⟩)
 
 end Sshuttle.Tunnel
